@@ -343,10 +343,13 @@ class ModelCacheMixin:
 
     def min(self, e, extra_constraints=(), signed=False, exact=None):
         cached = []
-        if e.hash() in self._eval_exhausted or e.hash() in self._min_exhausted:
+        exhausted = self._min_signed_exhausted if signed else self._min_exhausted
+        # the cached models only witness the optimum of the stored constraints in the signedness it was computed
+        # for; with extra constraints they say nothing about which values remain possible
+        if len(extra_constraints) == 0 and (e.hash() in self._eval_exhausted or e.hash() in exhausted):
             # we set allow_unconstrained to False because we expect all returned values for e are returned by Z3,
             # instead of some arbitrarily assigned concrete values.
-            cached = self._get_solutions(e, extra_constraints=extra_constraints, allow_unconstrained=False)
+            cached = self._get_solutions(e, allow_unconstrained=False)
 
         if len(cached) > 0:
 
@@ -362,8 +365,9 @@ class ModelCacheMixin:
 
     def max(self, e, extra_constraints=(), signed=False, exact=None):
         cached = []
-        if e.hash() in self._eval_exhausted or e.hash() in self._max_exhausted:
-            cached = self._get_solutions(e, extra_constraints=extra_constraints, allow_unconstrained=False)
+        exhausted = self._max_signed_exhausted if signed else self._max_exhausted
+        if len(extra_constraints) == 0 and (e.hash() in self._eval_exhausted or e.hash() in exhausted):
+            cached = self._get_solutions(e, allow_unconstrained=False)
 
         if len(cached) > 0:
 
